@@ -12,6 +12,7 @@ From SU.Proofs Require Import GlideCoeffProofs GlideFilterProofs GlideTimeProofs
 From SU.Spec Require Import RunSpec.
 From SU.Proofs Require Import GlideExtraProofs.
 From SU.Proofs Require Import SharedProofs.
+From SU.Proofs Require Import GlideKillers.
 Open Scope R_scope.
 
 (** the pole installed for a time t with N = t * fs >= 100 samples (t <= 10 s) is the pole of
@@ -190,6 +191,50 @@ Theorem C14_run_beyond_10_false :
   beyond_10 t_10_04 /\ glide_time_ok t_9_96.
 Proof. exact run_beyond_10_false. Qed.
 
+(** what a new processor stores: the marker -1.0 as cached time (a model starting with cached time 0.0 would satisfy C14_cached_t_in_effect through its second disjunct and ignore a first set_time below 0.05 s) *)
+Theorem C14_new_cached_marker : forall fs g0, glide_new fs = Some g0 ->
+  g_cached_t g0 = GL_T0 /\ R32 (g_cached_t g0) = -1 /\
+  g_fs g0 = fs /\ g_min_fc g0 = GL_MIN_FC /\ g_max_fc g0 = fdiv fs GL_DIV /\
+  d_y1 (g_lpf g0) = f_0 /\ d_y2 (g_lpf g0) = f_0 /\
+  d_x1 (g_lpf g0) = f_0 /\ d_x2 (g_lpf g0) = f_0.
+Proof. exact new_cached_marker. Qed.
+
+(** the first set_time call on a new processor is always honoured *)
+Theorem C14_first_set_time_from_new : forall fs g0 t,
+  glide_fs_ok fs -> glide_new fs = Some g0 -> glide_time_ok t ->
+  exists g', glide_set_time g0 t = Some g' /\
+    g_cached_t g' = t /\
+    Some (d_c (g_lpf g')) = coeffs_for g0 t /\
+    good (d_c (g_lpf g')) /\ 0.6 / R32 fs <= speed (d_c (g_lpf g')) /\
+    d_y1 (g_lpf g') = f_0 /\ d_y2 (g_lpf g') = f_0 /\
+    d_x1 (g_lpf g') = f_0 /\ d_x2 (g_lpf g') = f_0.
+Proof. exact first_set_time_from_new. Qed.
+
+(** with the accurate pole *)
+Theorem C14_first_set_time_pole : forall fs g0 t g',
+  glide_fs_ok fs -> glide_new fs = Some g0 -> glide_time_ok t -> 100 <= R32 t * R32 fs ->
+  glide_set_time g0 t = Some g' ->
+  let p0 := ideal_pole (R32 t * R32 fs) in
+  g_cached_t g' = t /\ good (d_c (g_lpf g')) /\
+  Rabs (pole (d_c (g_lpf g')) - p0) <= / 65536 * (1 - p0) + 4 * / 16777216.
+Proof. exact first_set_time_pole. Qed.
+
+(** end to end on the outputs of the model itself: new, set_time t, a step held for t (resp. t/10) seconds -> at least 99.6% (resp. 41%..54%) of the step, up to the filter resolution *)
+Theorem C14_first_glide_end_to_end : forall fs g0 t hi B (n n10 : nat),
+  glide_fs_ok fs -> glide_new fs = Some g0 -> glide_time_ok t ->
+  100 <= R32 t * R32 fs ->
+  fin hi -> Rabs (R32 hi) <= B -> bpow radix2 (-100) <= B -> B <= bpow radix2 64 ->
+  R32 t * R32 fs <= INR n < R32 t * R32 fs + 1 ->
+  R32 t * R32 fs / 10 <= INR n10 < R32 t * R32 fs / 10 + 1 ->
+  exists ys ys10 s s10,
+    glide_outputs g0 (GSetTime t :: repeat (GProcess hi) (S n)) = Some ys /\
+    glide_outputs g0 (GSetTime t :: repeat (GProcess hi) (S n10)) = Some ys10 /\
+    length ys = S n /\ length ys10 = S n10 /\
+    Rabs (R32 (last ys f_0) - R32 hi * s) <= 2 * resolution (0.6 / R32 fs) * B /\
+    Rabs (R32 (last ys10 f_0) - R32 hi * s10) <= 2 * resolution (0.6 / R32 fs) * B /\
+    0.996 <= s /\ 0.41 <= s10 <= 0.54.
+Proof. exact first_glide_end_to_end. Qed.
+
 Print Assumptions C14_pole_accuracy.
 Print Assumptions C14_time_constant_real.
 Print Assumptions C14_step_tracks.
@@ -209,3 +254,7 @@ Print Assumptions C14_fastest_settles_set_time.
 Print Assumptions C14_coeffs_beyond_10.
 Print Assumptions C14_run_beyond_10.
 Print Assumptions C14_run_beyond_10_false.
+Print Assumptions C14_new_cached_marker.
+Print Assumptions C14_first_set_time_from_new.
+Print Assumptions C14_first_set_time_pole.
+Print Assumptions C14_first_glide_end_to_end.
